@@ -44,7 +44,7 @@ def gen_cases(tier, seed):
     # "in every layout": all 24 orderings of a 4-D grid (not only the three shipped ones)
     for k in range(4 if tier == "quick" else 200):
         cases.append({"kind": "anylayout", "npts": [rng.randint(4, 7) for _ in range(4)], "nprocs": list([(1, 1), (2, 1), (2, 2), (1, 3), (3, 2), (2, 3)][k % 6]),
-                      "seed": rng.randrange(1 << 30), "cost": 150})
+                      "seed": rng.randrange(1 << 30), "intgrid": bool((k // 2) % 2), "cost": 150})
     return cases
 
 
@@ -84,6 +84,11 @@ def _anylayout(case):
     rs = np.random.RandomState(case["seed"] % (1 << 31))
     from math import pi as _pi
     eta = [np.sort(rs.uniform(0.5, 5.0, npts[0])), np.linspace(0, 2 * _pi, npts[1], endpoint=False), np.linspace(0, 7.0, npts[2], endpoint=False), np.sort(rs.uniform(-4, 4, npts[3]))]
+    if case.get("intgrid"):
+        # the same kind of grid with integer coordinates stored in integer-typed arrays (np.arange): quadrature weights such as dv/2
+        # must not inherit the integer type
+        eta[0] = np.arange(1, npts[0] + 1)
+        eta[3] = np.arange(-(npts[3] // 2), npts[3] - (npts[3] // 2)).astype([np.int64, np.int32][case["seed"] % 2])
     F = rs.standard_normal(npts)
     perms = [list(p) for p in itertools.permutations(range(4))]
     layouts = {"L" + "".join(map(str, p)): p for p in perms}
